@@ -37,7 +37,6 @@ import (
 	"fmt"
 	"os"
 	"path/filepath"
-	"sync"
 	"testing/synctest"
 	"time"
 
@@ -144,7 +143,7 @@ type Rig struct {
 	// Filter, if set, decides whether a snapshot is taken at a point.
 	Filter func(inside bool) bool
 
-	mu      sync.Mutex
+	mu      chanLock
 	seq     int
 	opIdx   int
 	op      string
@@ -167,7 +166,7 @@ func New(c Cfg) (*Rig, error) {
 	if err != nil {
 		return nil, err
 	}
-	r := &Rig{Cfg: c, Root: root, Epoch: &stor.Epoch{}, opIdx: -1}
+	r := &Rig{Cfg: c, Root: root, Epoch: &stor.Epoch{}, opIdx: -1, mu: make(chanLock, 1)}
 	if err := r.open(); err != nil {
 		os.RemoveAll(root)
 		return nil, err
@@ -227,6 +226,15 @@ func (r *Rig) Cleanup() {
 	os.RemoveAll(r.Root)
 }
 
+// chanLock is a mutex whose waiters are "durably blocked" in the sense of
+// testing/synctest (a goroutine waiting for a sync.Mutex is not, which would
+// stop the fake clock while the holder waits for a timer, e.g. FSTree's
+// combined-write window).
+type chanLock chan struct{}
+
+func (l chanLock) Lock()   { l <- struct{}{} }
+func (l chanLock) Unlock() { <-l }
+
 func mutating(m string) bool { return m == "Put" || m == "PutBatch" || m == "Delete" }
 
 func (r *Rig) before(comp, m string, addrs []oid.Address) {
@@ -277,10 +285,10 @@ func (r *Rig) Begin(idx int, name string) {
 // End marks the end of the current operation and takes the post-operation snapshot.
 func (r *Rig) End() {
 	r.mu.Lock()
-	r.inOp = false
 	if r.Sh != nil {
 		r.snapshotLocked("end", false)
 	}
+	r.inOp = false
 	r.mu.Unlock()
 }
 
@@ -315,7 +323,7 @@ func (r *Rig) snapshotLocked(point string, inside bool) {
 	}
 	op := r.op
 	if !r.inOp {
-		op = "background-flush"
+		op = "(outside operations)"
 	}
 	s := Snap{Dir: d, Seq: r.seq, OpIdx: r.opIdx, Op: op, Point: point, Inside: inside, Epoch: r.Epoch.CurrentEpoch()}
 	if r.SnapMeta != nil {
